@@ -81,7 +81,7 @@ class Proc(object):
     __slots__ = ('pid', 'parent', 'children', 'state', 'wstatus', 'behaviour', 'argv',
                  'env', 'cwd', 'close_fds', 'shell', 'executable', 'spawn_time',
                  'death_time', 'signals', 'out_w', 'err_w', 'watcher', 'wid', 'role',
-                 'inherit_fds', 'is_worker', 'popen', 'reaped_by', 'pending_death', 'pass_fds', 'orig_parent')
+                 'inherit_fds', 'is_worker', 'popen', 'reaped_by', 'pending_death', 'pass_fds', 'orig_parent', 'child_fds')
 
     def __init__(self, pid):
         self.pid = pid
@@ -110,6 +110,7 @@ class Proc(object):
         self.pending_death = False
         self.pass_fds = ()
         self.orig_parent = None
+        self.child_fds = None
 
 
 class SimKernel(object):
@@ -133,6 +134,7 @@ class SimKernel(object):
         self.blocking_waits = 0
         self.counters = {}
         self.stray_real_signals = []
+        self.probe_preexec = False     # run preexec_fn in a real forked child and record the fd table it would exec with
 
     # ------------------------------------------------------------------
     def _count(self, k):
@@ -303,6 +305,8 @@ class SimKernel(object):
         p.wid = info.get('wid')
         if self.fd_snapshot is not None:
             p.inherit_fds = self.fd_snapshot()
+        if self.probe_preexec and preexec_fn is not None:
+            p.child_fds = probe_child_fds(preexec_fn, close_fds, p.pass_fds)
         self.procs[p.pid] = p
         self.daemon_children.append(p.pid)
         self.spawn_log.append(p)
@@ -343,6 +347,73 @@ class SimKernel(object):
                             f.close()
                         except OSError:
                             pass
+
+
+def probe_child_fds(preexec_fn, close_fds, pass_fds):
+    """What a real child would see after fork + preexec_fn + the close_fds / CLOEXEC rules of exec: a REAL fork of this
+    process runs preexec_fn and reports {fd: [st_dev, st_ino, is_socket, listening]} for every descriptor that would
+    survive into the exec'd program."""
+    import json
+    import socket as _socket
+    import stat as _stat
+    r, w = os.pipe()
+    pid = os.fork()
+    if pid == 0:
+        code = 0
+        try:
+            os.close(r)
+            preexec_fn()
+            out = {}
+            for name in os.listdir('/proc/self/fd'):
+                try:
+                    fd = int(name)
+                    if fd == w:
+                        continue
+                    st = os.fstat(fd)
+                    inh = os.get_inheritable(fd)
+                except (ValueError, OSError):
+                    continue
+                if not (fd < 3 or fd in pass_fds or (not close_fds and inh)):
+                    continue
+                issock = _stat.S_ISSOCK(st.st_mode)
+                listening = False
+                if issock:
+                    try:
+                        sk = _socket.socket(fileno=os.dup(fd))
+                        listening = sk.getsockopt(_socket.SOL_SOCKET, _socket.SO_ACCEPTCONN) == 1
+                        sk.close()
+                    except OSError:
+                        pass
+                out[fd] = [st.st_dev, st.st_ino, issock, listening]
+            os.write(w, json.dumps(out).encode())
+        except BaseException as e:      # noqa
+            try:
+                os.write(w, json.dumps({'error': repr(e)}).encode())
+            except Exception:
+                pass
+            code = 1
+        finally:
+            os._exit(code)
+    os.close(w)
+    chunks = []
+    while True:
+        b = os.read(r, 65536)
+        if not b:
+            break
+        chunks.append(b)
+    os.close(r)
+    try:
+        from vt.world import _real_waitpid
+        _real_waitpid(pid, 0)
+    except Exception:
+        pass
+    try:
+        data = json.loads(b''.join(chunks).decode() or '{}')
+    except ValueError:
+        data = {'error': 'unreadable probe output'}
+    if 'error' in data:
+        return data
+    return {int(k): v for k, v in data.items()}
 
 
 def _caller_info():
